@@ -51,6 +51,8 @@ func cmdRun(args []string) {
 	solver := fs.String("solver", "z3-new", "")
 	debug := fs.Bool("debug", false, "")
 	sched := fs.Bool("sched", false, "")
+	verbose := fs.Bool("v", false, "print every violation candidate")
+	fuelV := fs.Bool("fuelv", false, "fuel exhaustion is a violation")
 	fs.Parse(args)
 	t0 := time.Now()
 	l, err := engine.Load(verifDir(), *pkg)
@@ -72,7 +74,7 @@ func cmdRun(args []string) {
 		pm[k] = v
 	}
 	t1 := time.Now()
-	exp, err := l.Run(engine.RunSpec{Fn: *fn, Setup: *setup, Params: pm, Fuel: *fuel, MaxPaths: *maxPaths, Timeout: *timeout, Workers: *workers, Debug: *debug, Sched: *sched}, *solver, 60000)
+	exp, err := l.Run(engine.RunSpec{Fn: *fn, Setup: *setup, Params: pm, Fuel: *fuel, MaxPaths: *maxPaths, Timeout: *timeout, Workers: *workers, Debug: *debug, Sched: *sched, FuelViolation: *fuelV}, *solver, 60000)
 	if err != nil {
 		fmt.Fprintln(os.Stderr, "run:", err)
 		os.Exit(2)
@@ -92,9 +94,25 @@ func cmdRun(args []string) {
 	pr("known", st.KnownSeen)
 	pr("inconclusive", st.InconclMsgs)
 	pr("unsupported", st.UnsuppMsgs)
+	byLabel := map[string]int{}
 	for _, v := range exp.Violations {
-		b, _ := json.Marshal(v)
-		fmt.Printf("VIOLATION-CANDIDATE %s\n", b)
+		byLabel[v.Label+" :: "+v.Msg]++
+	}
+	for _, v := range exp.Violations {
+		if *verbose || byLabel[v.Label+" :: "+v.Msg] > 0 {
+			b, _ := json.Marshal(v.Inputs)
+			fmt.Printf("VIOLATION-CANDIDATE label=%q msg=%q known=%q inputs=%s (x%d recorded)\n", v.Label, v.Msg, v.Known, b, byLabel[v.Label+" :: "+v.Msg])
+			if v.Kind == "fuel" && len(v.Observed) > 0 {
+				fmt.Println(v.Observed[len(v.Observed)-1])
+			} else if *verbose {
+				for _, o := range v.Observed {
+					fmt.Println("   observed:", o)
+				}
+			}
+			if !*verbose {
+				byLabel[v.Label+" :: "+v.Msg] = -1
+			}
+		}
 	}
 	for _, s := range st.Samples {
 		fmt.Println("sample:", s)
